@@ -33,7 +33,7 @@ type EmbeddedIterator struct {
 func (e *EmbeddedIterator) scanOnOwners() error {
 	owners := e.clusterIterator.getOwners()
 
-	for idx, owner := range owners {
+	for _, owner := range owners {
 		cursor := e.clusterIterator.loadCursor(owner)
 
 		if e.client.db.rt.This().String() == owner {
@@ -43,7 +43,7 @@ func (e *EmbeddedIterator) scanOnOwners() error {
 			}
 			e.clusterIterator.updateIterator(keys, newCursor, owner)
 			if newCursor == 0 {
-				e.clusterIterator.removeScannedOwner(idx)
+				e.clusterIterator.removeScannedOwner(owner)
 			}
 			continue
 		}
@@ -74,7 +74,7 @@ func (e *EmbeddedIterator) scanOnOwners() error {
 		}
 		e.clusterIterator.updateIterator(keys, newCursor, owner)
 		if newCursor == 0 {
-			e.clusterIterator.removeScannedOwner(idx)
+			e.clusterIterator.removeScannedOwner(owner)
 		}
 	}
 	return nil
